@@ -73,6 +73,21 @@ Theorem C09_same_derivation : forall T o1 o2 len1 len2 phi root w0 f,
   tl (snd (parse_all T o2 len2 f root w0)) = map (mapq phi) (tl (snd (parse_all T o1 len1 f root w0))).
 Proof. exact C09_same_derivation_pf. Qed.
 
+(* the model's answer does not depend on the fuel (no condition on the table): more fuel never changes a definite answer *)
+Theorem C09_fuel_monotone : forall T o len f1 f2 root w0, (f1 <= f2)%nat ->
+  is_abort (fst (parse_all T o len f1 root w0)) = false -> parse_all T o len f2 root w0 = parse_all T o len f1 root w0.
+Proof. exact C09_fuel_monotone_pf. Qed.
+
+(* hence the strong form for any two amounts of fuel that suffice for the two parses *)
+Theorem C09_same_derivation_any_fuel : forall T o1 o2 len1 len2 phi root w0 f1 f2,
+  (forall a b, a < b -> phi a < phi b) -> len2 = phi len1 ->
+  o2 (QS w0 0) = phi (o1 (QS w0 0)) ->
+  (forall q, In q (snd (parse_all T o1 len1 f1 root w0)) -> comm o1 o2 phi q) ->
+  is_abort (fst (parse_all T o1 len1 f1 root w0)) = false -> is_abort (fst (parse_all T o2 len2 f2 root w0)) = false ->
+  fst (parse_all T o2 len2 f2 root w0) = mapres phi (fst (parse_all T o1 len1 f1 root w0)) /\
+  tl (snd (parse_all T o2 len2 f2 root w0)) = map (mapq phi) (tl (snd (parse_all T o1 len1 f1 root w0))).
+Proof. exact C09_same_derivation_any_fuel_pf. Qed.
+
 (* non-vacuity: a sequence whose whitespace engine (0) skips the comment.  Text 1 = "order by" (one blank), text 2 = "order/**/by";
    every logged query commutes, the hypotheses of C09_layout_invariance hold and the second parse accepts like the first. *)
 Example C09_premises_satisfiable :
